@@ -183,6 +183,31 @@ def enc_features(prop, monitor, pfx):
           'float32(NaN) -> NaN, +Inf', "internal/encoder/vm OpFloat32*: no IsNaN/IsInf check (OpFloat64* have it)", "other non-finite float32 emitted", "4 interpreters x many opcodes")
 enc_features("C01", "enc-diff", "KF-C01")
 
+# ------------------------------------------------------------------ process deaths on the wild-read features (shared by the encode-side properties)
+def enc_deaths(prop, pfx):
+    for tag, feat, same in (("PTR2", r"ptr2\+", "KF-C01-PTR2"), ("ARR1", "array1-ptr-shaped-elem", "KF-C01-ARR1"), ("PSTRUCT", "struct-ptr-shaped", "KF-C01-PSTRUCT"), ("MAPKEY", "mapkey-marshaler", "KF-C01-MAPKEY")):
+        known(pfx + "-DEATH-" + tag, prop, "process", None, r"(fatal:.+|checkptr:.+|asan:.+)", r".* @ feature:" + feat,
+              "worker process dies while encoding a type with this shape; same root cause as " + same, "see " + same, "see " + same, "see " + same)
+
+# ------------------------------------------------------------------ C03
+enc_deaths("C03", "KF-C03")
+W = "enc-wellformed"
+known("KF-C03-01", "C03", W, None, r"malformed-output:nonfinite", r"feature:val:nonfinite",
+      'Marshal(float32(NaN)) = NaN, nil; struct{F float32}{+Inf} -> {"F":+Inf}', "internal/encoder/vm*/vm.go OpFloat32 family has no IsNaN/IsInf test (OpFloat64 has)",
+      "other non-finite float32 output", "many opcodes x 4 interpreters")
+known("KF-C03-02", "C03", "enc-reject", None, r"unrepresentable-accepted", r"non-finite:float32 @ feature:val:nonfinite",
+      'as KF-C03-01 (the same executions seen by the must-reject monitor when the output happens to parse)', "see KF-C03-01", "see KF-C03-01", "see KF-C03-01")
+known("KF-C03-03", "C03", W, None, r"malformed-output:(other|empty)", r"feature:val:(bad-number|json\.Number)",
+      'Marshal(json.Number("1e")) = 1e; "01", "-", "+1", ".5" likewise', "internal/encoder/encoder.go AppendNumber: checks the character class only",
+      "other ill-formed json.Number output", "shares lenient scanner")
+known("KF-C03-04", "C03", "enc-reject", None, r"unrepresentable-accepted", r"json\.Number:number:.* @ feature:val:json\.Number",
+      'json.Number("x") accepted', "see KF-C03-03", "see KF-C03-03", "see KF-C03-03")
+known("KF-C03-05", "C03", W, None, r"malformed-output:(other|raw-control-char|empty|invalid-utf8)", r"feature:val:(bad-raw|marshaler-output)",
+      'MarshalJSON returning "10." or "a<LF>b" or RawMessage("01") is copied to the output', "internal/encoder/compact.go: lenient validation of marshaler output (KF-C18-01..04)",
+      "other ill-formed marshaler/RawMessage output passed through", "see KF-C18-01")
+known("KF-C03-06", "C03", "enc-reject", None, r"unrepresentable-accepted", r"marshaler-output:nul-terminates @ feature:val:marshaler-output",
+      'MarshalJSON returning "1\\x00x" is emitted as 1', "compact.go NUL sentinel", "other NUL-truncated marshaler output", "sentinel design")
+
 json.dump({"comment": "generated by tools/gen_known.py; never written at check time", "findings": F},
           open(os.path.join(os.path.dirname(os.path.abspath(__file__)), "..", "known_findings.json"), "w"), indent=1, ensure_ascii=False)
 print(len(F), "entries")
